@@ -564,6 +564,61 @@ def olson_rules(ctx):
         ctx.need(len(cut) == 1 and A.eq(cutv, A.sym(cut[0])),
                  'ecef_to_lla: argument of %s is not a named intermediate' % fn)
         cut = cut[0]
+        # ---- the refinement works on a CONSISTENT pair: whatever the branch took as its
+        # guess, the sine and cosine it hands to the Newton step satisfy s^2 + c^2 = 1 as an
+        # identity in the guess (one of them is recomputed from the other).  A pair that mixes
+        # the guess with a stale approximation is an O(E2^3) inconsistency that the single
+        # step does not remove (and it makes the algebra below explode).
+        env_ = getattr(ev, 'last_env', {}) or {}
+        pair = []
+        # the pair by role: the two arrays that receive a square root under a branch mask
+        # (each branch recomputes the partner of its guess that way)
+        roots = []
+        for st_ in ast.walk(f.node):
+            if isinstance(st_, ast.Assign) and len(st_.targets) == 1 and \
+                    isinstance(st_.targets[0], ast.Subscript) and \
+                    isinstance(st_.targets[0].value, ast.Name):
+                v0 = st_.value
+                is_root = (isinstance(v0, ast.BinOp) and isinstance(v0.op, ast.Pow) and
+                           isinstance(v0.right, ast.Constant) and v0.right.value == 0.5) or \
+                    (isinstance(v0, ast.Call) and
+                     (f.module.resolve(v0.func, f.local_names()) or '') in ('numpy.sqrt',
+                                                                            'math.sqrt'))
+                if is_root and st_.targets[0].value.id not in roots:
+                    roots.append(st_.targets[0].value.id)
+        for nm_ in (roots if len(roots) == 2 else ()):
+            v_ = env_.get(nm_)
+            if isinstance(v_, SArray) and v_.shape == () or isinstance(v_, Rat):
+                pair.append(v_ if isinstance(v_, Rat) else v_.get(()))
+        if len(pair) == 2:
+            try:
+                s_f = ev.expand(pair[0], stop={cut})
+                c_f = ev.expand(pair[1], stop={cut})
+                # one of the two is the guess itself, the other a function of the guess alone
+                only_cut = A.atoms_of(s_f) | A.atoms_of(c_f)
+                nested = set()
+                for a_ in only_cut:
+                    nested |= A._nested_atoms(a_)
+                depends = {a_ for a_ in (only_cut | nested)
+                           if a_ in ('W', 'Z', 'lam') or a_.startswith(('W', 'Z'))}
+                okp = not depends
+                if okp:
+                    A.nonneg = set(getattr(A, 'nonneg', set())) | {cut}
+                    okp = A.is_zero(A.sub(A.add(A.mul(s_f, s_f), A.mul(c_f, c_f)), A.const(1)))
+            except (ValueError, Unsupported):
+                okp = None
+            if okp is not None:
+                ctx.rule('OLSON-PAIR', 'the sine / cosine pair handed to the Newton step of '
+                         'ecef_to_lla is consistent: s^2 + c^2 = 1 identically in the guess')
+                ctx.ob('OLSON-PAIR', okp, None, 'consistent (sin, cos) pair on the %s branch' % fn,
+                       f=f, key='pair-' + fn,
+                       why='on the %s branch the refinement of ecef_to_lla works with a sine and '
+                           'a cosine that do not belong to one angle (s^2 + c^2 = 1 is not an '
+                           'identity in the guess: one of them is still the first approximation, '
+                           'or is computed from it): the Newton step then converges to a '
+                           'latitude / altitude that is off by centimetres' % fn)
+                if not okp:
+                    continue
         L = A.sym('L')
         sL, cL = A.sin(L), A.cos(L)
         A.nonneg = set(A.atoms_of(sL)) | set(A.atoms_of(cL))
